@@ -99,7 +99,7 @@ theorem extend_strict_only_ext (baseDefs : List TypeDef) (baseDirs : List DirDef
 
 /-! ### what strict mode keeps: everything -/
 
-private theorem step_strict_exact (ht hd : String → Bool) (acc acc' : ExtCollected) (d : Def)
+theorem step_strict_exact (ht hd : String → Bool) (acc acc' : ExtCollected) (d : Def)
     (h : collectExtStep ht hd true acc d = .ok acc') :
     acc'.typeDefs = acc.typeDefs ++ typeDefs [d] ∧ acc'.dirDefs = acc.dirDefs ++ dirDefs [d] ∧
     acc'.typeExts = acc.typeExts ++ typeExts [d] ∧ acc'.schemaExts = acc.schemaExts ++ schemaExtensions [d] ∧
@@ -110,7 +110,7 @@ private theorem step_strict_exact (ht hd : String → Bool) (acc acc' : ExtColle
     | (cases h; done)
     | (cases h; simp_all [typeDefs, dirDefs, typeExts, schemaExtensions, schemaDefs]; done)
 
-private theorem foldl_strict_exact (ht hd : String → Bool) : ∀ (doc : Doc) (acc c : ExtCollected),
+theorem foldl_strict_exact (ht hd : String → Bool) : ∀ (doc : Doc) (acc c : ExtCollected),
     doc.foldlM (collectExtStep ht hd true) acc = .ok c →
     c.typeDefs = acc.typeDefs ++ typeDefs doc ∧ c.dirDefs = acc.dirDefs ++ dirDefs doc ∧
     c.typeExts = acc.typeExts ++ typeExts doc ∧ c.schemaExts = acc.schemaExts ++ schemaExtensions doc ∧
@@ -147,7 +147,7 @@ private theorem foldl_strict_exact (ht hd : String → Bool) : ∀ (doc : Doc) (
       · exact s7 t h'
       · exact i7 t h'
 
-private theorem filterTargets_strict_all (ht : String → Bool) (nd : List TypeDef) : ∀ (es r : List TypeDef),
+theorem filterTargets_strict_all (ht : String → Bool) (nd : List TypeDef) : ∀ (es r : List TypeDef),
     filterTargets ht true nd es = .ok r → r = es := by
   intro es
   induction es with
